@@ -43,7 +43,15 @@ RegionsAll == {[k |-> "fpregion", spine |-> sp, win |-> <<-6, 30, -18, 22>>, els
                    j \in Joins, e \in Ends}
 Regions == {r \in RegionsAll : Len(r.els[1].hw) = Len(r.spine)}
 
-Init == case \in Books \cup Regions
+\* ---- (c) circular bends: user units, widths / offsets / radius in 1/1000 ------------------------------
+BendSpines == {<< <<0, 0>>, <<10, 0>>, <<10, 8>> >>,                       \* one corner, room on both legs
+               << <<0, 0>>, <<10, 0>>, <<10, 6>>, <<20, 6>> >>,          \* two corners sharing a short leg
+               << <<0, 0>>, <<8, 0>>, <<14, 6>> >>,                      \* 45 degree corner
+               << <<0, 0>>, <<3, 0>>, <<3, 10>> >>,                      \* first leg too short for large radii
+               << <<0, 0>>, <<9, 0>>, <<9, -9>>, <<0, -9>>, <<0, -2>> >>} \* three right turns
+Bends == {[k |-> "fpbend", spine |-> sp, w |-> w, o |-> o, r |-> r, ends |-> e, tolk |-> 2] :
+            sp \in BendSpines, w \in {1000, 600}, o \in {0, 750, -750}, r \in {4000, 2000}, e \in {"flush", "round"}}
+Init == case \in Books \cup Regions \cup Bends
 Next == UNCHANGED case
 
 \* theorems on the region semantics: no sample is both surely covered and surely not covered,
